@@ -8,9 +8,10 @@
 (* operators satisfy the property-level ones.                              *)
 (*   Part = "vr"      one element: every VR x in-memory representation x   *)
 (*                    multiplicity 0..MaxMult x value alphabet             *)
-(*                    (text alphabets of CS, LO, SH, PN include the empty  *)
-(*                    string: an empty value at any position of a multi-   *)
-(*                    valued element, and a single blank value)            *)
+(*                    (the alphabets of every VR held as character strings *)
+(*                    - the text VRs, PN, and IS/DS held as strings -      *)
+(*                    include the empty string: an empty value at any      *)
+(*                    position of a multi-valued element, a single blank)  *)
 (*   Part = "struct"  several elements in any insertion order, sequences   *)
 (*                    with 0..2 items, nested to depth 2, empty items      *)
 (*   both parts       long binary values around the block sizes a chunked  *)
@@ -70,18 +71,18 @@ TagOf(vr) == CASE vr = "AE" -> T(8, 84)        \* (0008,0054) RetrieveAETitle
    [] vr = "UV" -> T(65519, 65535)             \* (FFEF,FFFF) private, top of the range
    [] vr = "SQ" -> T(8, 4416)                  \* (0008,1140)
 
-TextAlpha(vr) == CASE vr = "AE" -> {"MAIN", "AE TITLE ", "X"}
-   [] vr = "AS" -> {"030Y", "006M", "001D"}
+TextAlpha(vr) == CASE vr = "AE" -> {"MAIN", "AE TITLE ", "X", ""}
+   [] vr = "AS" -> {"030Y", "006M", "001D", ""}
    [] vr = "CS" -> {"CT", "ISO_IR 192", "A ", ""}
-   [] vr = "DA" -> {"20230610", "19991231", "20000229"}
-   [] vr = "DT" -> {"20230610123000.5+0100", "2023", "202306101230"}
+   [] vr = "DA" -> {"20230610", "19991231", "20000229", ""}
+   [] vr = "DT" -> {"20230610123000.5+0100", "2023", "202306101230", ""}
    [] vr = "LO" -> {"Hospital A", " lead", "pad  ", ""}
    [] vr = "SH" -> {"SH1", "a b", "Z ", ""}
-   [] vr = "TM" -> {"120000", "235959.999999", "07"}
-   [] vr = "UC" -> {"unlimited chars", "x", "y "}
-   [] vr = "UI" -> {"1.2.840.10008.1.2", "1.2.3", "2.25.1"}
+   [] vr = "TM" -> {"120000", "235959.999999", "07", ""}
+   [] vr = "UC" -> {"unlimited chars", "x", "y ", ""}
+   [] vr = "UI" -> {"1.2.840.10008.1.2", "1.2.3", "2.25.1", ""}
    [] vr = "PN" -> {"Doe^John", "^Bob^^Dr.", "Yamada^Tarou=YT=yt", "A^B ", ""}
-SingleText == {"Some text.", "a\\b with a backslash", "trailing  ", "say \"hi\"", "http://example.com/a?b=c"}
+SingleText == {"Some text.", "a\\b with a backslash", "trailing  ", "say \"hi\"", "http://example.com/a?b=c", ""}
 MultiTextVRs == {"AE", "AS", "CS", "DA", "DT", "LO", "SH", "TM", "UC", "UI", "PN"}
 SingleTextVRs == {"LT", "ST", "UT", "UR"}
 
@@ -99,8 +100,8 @@ Floats == FinFloats \cup {NaN, Inf(FALSE), Inf(TRUE)}
 Tags == {T(8, 24), T(32736, 16), T(43981, 239), T(0, 0)}
 U8s == {P("0"), P("1"), P("128"), P("255")}
 
-ISStrs == {"5", "-12", "+007"}
-DSStrs == {"0.50", "-1.5E+2", "160.000 "}
+ISStrs == {"5", "-12", "+007", ""}
+DSStrs == {"0.50", "-1.5E+2", "160.000 ", ""}
 
 One(vr, rep, A, lo, hi) == {El(TagOf(vr).g, TagOf(vr).e, vr, rep, v) : v \in Seqs(A, lo, hi)}
 Empty(vr) == {El(TagOf(vr).g, TagOf(vr).e, vr, "empty", <<>>)}
@@ -156,6 +157,8 @@ StructCases ==
   \cup {<<SQ(21504, 256, <<i>>), SQ(8, 4416, <<i, i>>)>> : i \in Items1}                \* (5400,0100) before (0008,1140)
   \cup {<<SQ(8, 4416, <<<<El(16, 16, "PN", "strs", v)>>>>)>> : v \in {<<"">>, <<"Smith^Anna", "", "Jones^Bob">>, <<"", "A^B">>, <<"A^B", "">>}}
   \cup {<<SQ(8, 4416, <<<<El(16, 16, "PN", "str", <<"">>), El(8, 128, "LO", "strs", <<"", "x">>)>>>>)>>}
+  \cup {<<SQ(8, 4416, <<<<El(24, 4400, "DS", "strs", v), El(32, 19, "IS", "strs", w)>>>>)>> :
+           v \in {<<"1.5", "", "-2.25">>, <<"">>}, w \in {<<"", "7">>, <<"7", "">>}}
 
 Cases == IF Part = "vr" THEN {<<el>> : el \in VRElems} \cup LongCases ELSE IF Part = "struct" THEN StructCases
          ELSE {<<el>> : el \in VRElems} \cup StructCases \cup LongCases
